@@ -222,6 +222,11 @@ bool splinetable<Alloc>::read_fits_core_impl(fitsfile* fits, const std::string& 
 			throw std::runtime_error("Unable to read table dimension from "+filePath);
 		if (temp_dim < 1)
 			throw std::runtime_error("Invalid table dimension "+std::to_string(temp_dim));
+		//cfitsio's pixel reading routines keep the axis lengths in arrays of nine
+		//entries and overrun them for images with more axes
+		if (temp_dim > 9)
+			throw std::runtime_error("Unsupported table dimension "+std::to_string(temp_dim)
+			                         +": at most 9 dimensions can be read");
 		ndim = temp_dim;
 	}
 	
@@ -396,10 +401,16 @@ bool splinetable<Alloc>::read_fits_core_impl(fitsfile* fits, const std::string& 
 		hduname << "KNOTS" << i;
 		fits_movnam_hdu(fits, IMAGE_HDU, const_cast<char*>(hduname.str().c_str()), 0, &error);
 		long nknots_temp;
+		int knot_dim = 0;
+		fits_get_img_dim(fits, &knot_dim, &error);
 		fits_get_img_size(fits, 1, &nknots_temp, &error);
 		
 		if (error != 0)
 			throw std::runtime_error("Error reading size of knot vector "+std::to_string(i));
+		//the vector is read below with a single starting coordinate, while
+		//cfitsio expects one per axis
+		if (knot_dim != 1)
+			throw std::runtime_error("Knot vector "+std::to_string(i)+" is not a one-dimensional array");
 		if(nknots_temp<=0)
 			throw std::runtime_error("Invalid number of knots ("+std::to_string(nknots_temp)+") in dimension "+std::to_string(i));
 		nknots[i]=nknots_temp;
@@ -438,9 +449,11 @@ bool splinetable<Alloc>::read_fits_core_impl(fitsfile* fits, const std::string& 
 		long n_extents = 0;
 		long fpix = 1;
 		int ext_error = 0;
+		int ext_dim = 0;
 		fits_movnam_hdu(fits, IMAGE_HDU, const_cast<char*>("EXTENTS"), 0, &ext_error);
+		fits_get_img_dim(fits, &ext_dim, &ext_error);
 		fits_get_img_size(fits, 1, &n_extents, &ext_error);
-		if (n_extents != 2*ndim)
+		if (ext_dim != 1 || n_extents != 2*ndim)
 			ext_error = 1;
 		
 		if (ext_error != 0) { // No extents. Make up some reasonable ones.
